@@ -333,7 +333,7 @@ fn matchers_part(ctx: &Ctx, res: &mut PartResult, max_set: usize) {
 fn summary_part(ctx: &Ctx, res: &mut PartResult, maxlen: usize) {
     res.engine = "E3 all non-decreasing sample timelines x snapshot times on the real RollingSummary under a mock clock".into();
     let mut states = vseq::States::new();
-    let values = [-2.5, 0.0, 1.0, 3.5, 1e6];
+    let values = [-2.5, 0.0, 1.0, 3.5, 1e6, 7.25, -100.0];
     let alpha = 0.0001f64;
     for (count, d) in [(3u32, 20u64), (1, 10), (2, 7)] {
         let w = count as u64 * d;
@@ -435,7 +435,7 @@ fn summary_part(ctx: &Ctx, res: &mut PartResult, maxlen: usize) {
 fn summary_render(ctx: &Ctx, res: &mut PartResult, maxlen: usize) {
     res.engine = "E3 sample timelines x render times through PrometheusBuilder (bucket duration/count) + render() under a mock quanta clock".into();
     let mut states = vseq::States::new();
-    let values = [-2.5, 1.0, 3.5, 1e6];
+    let values = [-2.5, 1.0, 3.5, 1e6, 0.5, -7.0];
     let alpha = 0.0001f64;
     // None = builder defaults, documented as 3 buckets of 20 s
     for cfgd in [Some((3u32, 20u64)), Some((1, 10)), Some((2, 7)), None] {
@@ -557,11 +557,11 @@ fn parts(ctx: &Ctx) -> Vec<PartSpec> {
     let q = ctx.quick();
     let b = if q { 150.0 } else { 2400.0 };
     vec![
-        PartSpec::new("histogram-direct", json!({"p": "hd", "n": if q { 4 } else { 5 }})).budget(b),
-        PartSpec::new("histogram-render", json!({"p": "hr", "n": if q { 3 } else { 4 }})).budget(b),
+        PartSpec::new("histogram-direct", json!({"p": "hd", "n": if q { 4 } else { 6 }})).budget(b),
+        PartSpec::new("histogram-render", json!({"p": "hr", "n": if q { 3 } else { 5 }})).budget(b),
         PartSpec::new("matchers", json!({"p": "m", "n": if q { 2 } else { 3 }})).budget(b),
-        PartSpec::new("rolling-summary", json!({"p": "s", "n": if q { 4 } else { 5 }})).budget(b),
-        PartSpec::new("summary-render", json!({"p": "sr", "n": if q { 3 } else { 4 }})).budget(b),
+        PartSpec::new("rolling-summary", json!({"p": "s", "n": if q { 4 } else { 6 }})).budget(b),
+        PartSpec::new("summary-render", json!({"p": "sr", "n": if q { 3 } else { 5 }})).budget(b),
     ]
 }
 
